@@ -26,9 +26,14 @@ Print Assumptions C06_compatible_count.
      EOr C A         = EO A C (root C)
      temps_ok A C ts = forall i < |C|, node i is not TrueN -> nth i ts 0 = nth i (countsA A C) 0
      or_no_true_child C : no Or node has a TrueN child
+     enum_key A      = dedup (sort_abs A): the cursor key of an assumption list since the repair F19
+                       (sorted by feature, repeated literals removed; Model/Enumerate.v)
+     same_set A A'   = forall l, In l A <-> In l A'
+     consistent A    = no two literals of A with the same feature but different signs
+     req_ok A (A',k) = same_set A A' /\ 0 <= k     (a request for the same SET of literals)
      exec_spec C n A = forall clean s, preprocess (build C n) A s = Some s1 ->
-                       execute_query (build C n) (sort_abs A) s1 = (s2, r) ->
-                       r = MCA C n A /\ (0 < r -> temps_ok (sort_abs A) C (temps s2)) /\ Clean C s2
+                       execute_query (build C n) (enum_key A) s1 = (s2, r) ->
+                       r = MCA C n A /\ (0 < r -> temps_ok (enum_key A) C (temps s2)) /\ Clean C s2
                        (the correctness of execute_query on the preprocessed scratch; HYPOTHESIS of
                         the page theorems, proved here only for A = [] : C06_exec_spec_nil)
    --------------------------------------------------------------------------------------------- *)
@@ -66,27 +71,28 @@ Proof.
 Qed.
 
 (* (2) one call of enumerate: the page is the next slice, sorted by feature; the cursor entry of
-   the abs-sorted assumption list moves to min c (p + amount) mod c; other entries are untouched *)
+   the key of the assumption list (sorted by feature, repeated literals removed) moves to
+   min c (p + amount) mod c; other entries are untouched *)
 Theorem C06_enumerate_page : forall C n, WF C n -> (0 < n)%nat -> or_no_true_child C = true ->
   forall A amount cur s, in_range n A -> exec_spec C n A -> Clean C s -> 0 < amount ->
   let c := MCA C n A in
-  let p := cur_get cur (sort_abs A) in
+  let p := cur_get cur (enum_key A) in
   let stop := Z.min c (p + amount) in
   0 < c -> 0 <= p < c ->
   exists s2, Clean C s2 /\
     enumerate (build C n) A amount cur s =
-    (s2, cur_set cur (sort_abs A) (stop mod c), Some (map sort_abs (slice p stop (EOr C A)))).
+    (s2, cur_set cur (enum_key A) (stop mod c), Some (map sort_abs (slice p stop (EOr C A)))).
 Proof. exact enumerate_page. Qed.
 Print Assumptions C06_enumerate_page.
 
 Theorem C06_enumerate_page_cursor : forall C n, WF C n -> (0 < n)%nat -> or_no_true_child C = true ->
   forall A amount cur s s2 cur2 r, in_range n A -> exec_spec C n A -> Clean C s -> 0 < amount ->
   let c := MCA C n A in
-  let p := cur_get cur (sort_abs A) in
+  let p := cur_get cur (enum_key A) in
   0 < c -> 0 <= p < c ->
   enumerate (build C n) A amount cur s = (s2, cur2, r) ->
-  cur_get cur2 (sort_abs A) = Z.min c (p + amount) mod c /\
-  (forall k, k <> sort_abs A -> cur_get cur2 k = cur_get cur k).
+  cur_get cur2 (enum_key A) = Z.min c (p + amount) mod c /\
+  (forall k, k <> enum_key A -> cur_get cur2 k = cur_get cur k).
 Proof. exact enumerate_page_cursor. Qed.
 Print Assumptions C06_enumerate_page_cursor.
 
@@ -132,19 +138,43 @@ Theorem C06_sort_abs_canon : forall n c V, Good c V -> range_set n V -> sort_abs
 Proof. exact sort_abs_canon. Qed.
 Print Assumptions C06_sort_abs_canon.
 
-(* the cursor key does not depend on the order in which the literals are given *)
+(* sorting does not depend on the order in which the literals are given *)
 Theorem C06_sort_abs_perm_eq : forall l l',
   Permutation l l' -> NoDup (map Z.abs l) -> sort_abs l = sort_abs l'.
 Proof. exact sort_abs_perm_eq. Qed.
 Print Assumptions C06_sort_abs_perm_eq.
 
-(* (3) histories of requests for one assumption set (literals in any order from call to call).
+(* F19 (finding K12 of C17): THE CURSOR KEY IS THE SET OF LITERALS.  Two consistent assumption lists
+   with the same literals -- in any order, any literal any number of times -- have the same key;
+   the key has the literals of the list, sorted by feature, each once; without a repeated feature
+   it is the sorted list (the key before F19). *)
+Theorem C06_key_is_set : forall A A', consistent A -> same_set A A' -> enum_key A = enum_key A'.
+Proof. exact enum_key_same_set. Qed.
+Print Assumptions C06_key_is_set.
+
+Theorem C06_key_shape : forall A,
+  same_set (enum_key A) A /\ Sorted.StronglySorted (fun a b => Z.abs a <= Z.abs b) (enum_key A) /\
+  (consistent A -> NoDup (map Z.abs (enum_key A))) /\
+  (NoDup (map Z.abs A) -> enum_key A = sort_abs A).
+Proof.
+  intros A. split; [apply enum_key_In|]. split; [apply enum_key_sorted|].
+  split; [apply enum_key_nodup_abs|apply enum_key_nodup].
+Qed.
+Print Assumptions C06_key_shape.
+
+(* a list that some model contains is consistent (so the hypothesis above is implied by 0 < MCA) *)
+Theorem C06_sat_consistent : forall C n A, 0 < MCA C n A -> consistent A.
+Proof. exact sat_consistent. Qed.
+Print Assumptions C06_sat_consistent.
+
+(* (3) histories of requests for one assumption SET (req_ok: the literals in any order, any literal
+   any number of times, from call to call: since F19 they all use one cursor).
    run_pages: the calls in sequence; spec_lens c p ks: page i has size min k_i (c - position);
    cyc c E [] p len: the len elements E[(p + j) mod c], j < len. *)
 Theorem C06_pages_cyclic : forall C n A, WF C n -> (0 < n)%nat -> or_no_true_child C = true ->
-  in_range n A -> NoDup (map Z.abs A) -> (forall A', Permutation A A' -> exec_spec C n A') ->
+  in_range n A -> (forall A', same_set A A' -> exec_spec C n A') ->
   forall reqs cur s, Clean C s -> Forall (req_ok A) reqs -> 0 < MCA C n A ->
-  let p := cur_get cur (sort_abs A) in
+  let p := cur_get cur (enum_key A) in
   0 <= p < MCA C n A ->
   exists rs cur' s',
     run_pages (build C n) reqs cur s = (rs, cur', s') /\
@@ -152,46 +182,46 @@ Theorem C06_pages_cyclic : forall C n A, WF C n -> (0 < n)%nat -> or_no_true_chi
                                     (spec_total (MCA C n A) p (map snd reqs))) /\
     map (fun r => match r with Some l => Z.of_nat (length l) | None => -1 end) rs
       = spec_lens (MCA C n A) p (map snd reqs) /\
-    0 <= cur_get cur' (sort_abs A) < MCA C n A.
+    0 <= cur_get cur' (enum_key A) < MCA C n A.
 Proof. exact pages_cyclic. Qed.
 Print Assumptions C06_pages_cyclic.
 
 Theorem C06_pages_within_cycle : forall C n A, WF C n -> (0 < n)%nat -> or_no_true_child C = true ->
-  in_range n A -> NoDup (map Z.abs A) -> (forall A', Permutation A A' -> exec_spec C n A') ->
+  in_range n A -> (forall A', same_set A A' -> exec_spec C n A') ->
   forall reqs cur s, Clean C s -> Forall (req_ok A) reqs -> 0 < MCA C n A ->
-  cur_get cur (sort_abs A) = 0 -> zsum (map snd reqs) <= MCA C n A ->
+  cur_get cur (enum_key A) = 0 -> zsum (map snd reqs) <= MCA C n A ->
   exists rs cur' s',
     run_pages (build C n) reqs cur s = (rs, cur', s') /\
     pages_of rs = map sort_abs (firstn (Z.to_nat (zsum (map snd reqs))) (EOr C A)) /\
     NoDup (pages_of rs) /\
-    cur_get cur' (sort_abs A) = zsum (map snd reqs) mod MCA C n A.
+    cur_get cur' (enum_key A) = zsum (map snd reqs) mod MCA C n A.
 Proof. exact pages_within_cycle. Qed.
 Print Assumptions C06_pages_within_cycle.
 
 Theorem C06_pages_within_cycle_from : forall C n A, WF C n -> (0 < n)%nat ->
   or_no_true_child C = true ->
-  in_range n A -> NoDup (map Z.abs A) -> (forall A', Permutation A A' -> exec_spec C n A') ->
+  in_range n A -> (forall A', same_set A A' -> exec_spec C n A') ->
   forall reqs cur s, Clean C s -> Forall (req_ok A) reqs -> 0 < MCA C n A ->
-  let p := cur_get cur (sort_abs A) in
+  let p := cur_get cur (enum_key A) in
   0 <= p < MCA C n A -> p + zsum (map snd reqs) <= MCA C n A ->
   exists rs cur' s',
     run_pages (build C n) reqs cur s = (rs, cur', s') /\
     pages_of rs = map sort_abs (slice p (p + zsum (map snd reqs)) (EOr C A)) /\
     NoDup (pages_of rs) /\
-    cur_get cur' (sort_abs A) = (p + zsum (map snd reqs)) mod MCA C n A.
+    cur_get cur' (enum_key A) = (p + zsum (map snd reqs)) mod MCA C n A.
 Proof. exact pages_within_cycle_from. Qed.
 Print Assumptions C06_pages_within_cycle_from.
 
 Theorem C06_pages_cycle : forall C n A, WF C n -> (0 < n)%nat -> or_no_true_child C = true ->
-  in_range n A -> NoDup (map Z.abs A) -> (forall A', Permutation A A' -> exec_spec C n A') ->
+  in_range n A -> (forall A', same_set A A' -> exec_spec C n A') ->
   forall reqs cur s, Clean C s -> Forall (req_ok A) reqs -> 0 < MCA C n A ->
-  cur_get cur (sort_abs A) = 0 -> zsum (map snd reqs) = MCA C n A ->
+  cur_get cur (enum_key A) = 0 -> zsum (map snd reqs) = MCA C n A ->
   exists rs cur' s',
     run_pages (build C n) reqs cur s = (rs, cur', s') /\
     pages_of rs = map sort_abs (EOr C A) /\
     Permutation (pages_of rs) (ModelsA C n A) /\
     NoDup (pages_of rs) /\
-    cur_get cur' (sort_abs A) = 0.
+    cur_get cur' (enum_key A) = 0.
 Proof. exact pages_cycle. Qed.
 Print Assumptions C06_pages_cycle.
 
@@ -260,25 +290,25 @@ Tactic Notation "concrete_exec" integer(k) :=
   | constructor; cbn [temps marks pds mdl]; try reflexivity; [exact Hpd|repeat constructor] ].
 
 Example ex_iff_hyps :
-  WF ex_iff 2 /\ or_no_true_child ex_iff = true /\ in_range 2 [1] /\ NoDup (map Z.abs [1]) /\
-  (forall A', Permutation [1] A' -> exec_spec ex_iff 2 A') /\
+  WF ex_iff 2 /\ or_no_true_child ex_iff = true /\ in_range 2 [1] /\ consistent [1] /\
+  exec_spec ex_iff 2 [1] /\
   Clean ex_iff (fresh_scratch ex_iff) /\ MCA ex_iff 2 [1] = 1 /\ MCA ex_iff 2 [] = 2.
 Proof.
   split; [apply check_wf_sound; vm_compute; reflexivity|]. split; [reflexivity|].
-  split; [intros l [<-|[]]; cbn; lia|]. split; [repeat constructor; intros []|].
+  split; [intros l [<-|[]]; cbn; lia|]. split; [intros x y [<-|[]] [<-|[]] _; reflexivity|].
   split; [|split; [apply fresh_clean|split; vm_compute; reflexivity]].
-  intros A' HP. apply Permutation_length_1_inv in HP. subst A'. concrete_exec 7.
+  concrete_exec 7.
 Qed.
 
 Example ex_and_hyps :
-  WF ex_and 3 /\ or_no_true_child ex_and = true /\ in_range 3 [-2] /\ NoDup (map Z.abs [-2]) /\
-  (forall A', Permutation [-2] A' -> exec_spec ex_and 3 A') /\
+  WF ex_and 3 /\ or_no_true_child ex_and = true /\ in_range 3 [-2] /\ consistent [-2] /\
+  exec_spec ex_and 3 [-2] /\
   Clean ex_and (fresh_scratch ex_and) /\ MCA ex_and 3 [-2] = 4 /\ MCA ex_and 3 [] = 8.
 Proof.
   split; [apply check_wf_sound; vm_compute; reflexivity|]. split; [reflexivity|].
-  split; [intros l [<-|[]]; cbn; lia|]. split; [repeat constructor; intros []|].
+  split; [intros l [<-|[]]; cbn; lia|]. split; [intros x y [<-|[]] [<-|[]] _; reflexivity|].
   split; [|split; [apply fresh_clean|split; vm_compute; reflexivity]].
-  intros A' HP. apply Permutation_length_1_inv in HP. subst A'. concrete_exec 11.
+  concrete_exec 11.
 Qed.
 
 (* the statements evaluated: a page in the middle of the cycle, the last page of a cycle (cursor
@@ -333,12 +363,12 @@ Print Assumptions C06_exec_spec_holds.
 Theorem C06_enumerate_page_final : forall C n, WFQ C n -> (0 < n)%nat -> or_no_true_child C = true ->
   forall A amount cur s, in_range n A -> Clean C s -> 0 < amount ->
   let c := MCA C n A in
-  let p := cur_get cur (sort_abs A) in
+  let p := cur_get cur (enum_key A) in
   let stop := Z.min c (p + amount) in
   0 < c -> 0 <= p < c ->
   exists s2, Clean C s2 /\
     enumerate (build C n) A amount cur s =
-    (s2, cur_set cur (sort_abs A) (stop mod c), Some (map sort_abs (slice p stop (EOr C A)))).
+    (s2, cur_set cur (enum_key A) (stop mod c), Some (map sort_abs (slice p stop (EOr C A)))).
 Proof. exact enumerate_page_final. Qed.
 Print Assumptions C06_enumerate_page_final.
 
@@ -346,13 +376,38 @@ Theorem C06_enumerate_page_cursor_final : forall C n, WFQ C n -> (0 < n)%nat ->
   or_no_true_child C = true ->
   forall A amount cur s s2 cur2 r, in_range n A -> Clean C s -> 0 < amount ->
   let c := MCA C n A in
-  let p := cur_get cur (sort_abs A) in
+  let p := cur_get cur (enum_key A) in
   0 < c -> 0 <= p < c ->
   enumerate (build C n) A amount cur s = (s2, cur2, r) ->
-  cur_get cur2 (sort_abs A) = Z.min c (p + amount) mod c /\
-  (forall k, k <> sort_abs A -> cur_get cur2 k = cur_get cur k).
+  cur_get cur2 (enum_key A) = Z.min c (p + amount) mod c /\
+  (forall k, k <> enum_key A -> cur_get cur2 k = cur_get cur k).
 Proof. exact enumerate_page_cursor_final. Qed.
 Print Assumptions C06_enumerate_page_cursor_final.
+
+(* F19: a request spelled A' (the literals of A in any order, any of them any number of times) uses
+   the cursor entry of A and returns the page a request spelled A would have returned.  With
+   C06_pages_*_final below (req_ok = same set): all spellings of one set page through ONE cycle. *)
+Theorem C06_enumerate_same_set_final : forall C n, WFQ C n -> (0 < n)%nat -> or_no_true_child C = true ->
+  forall A A' amount cur s, in_range n A -> same_set A A' -> Clean C s -> 0 < amount ->
+  let c := MCA C n A in
+  let p := cur_get cur (enum_key A) in
+  let stop := Z.min c (p + amount) in
+  0 < c -> 0 <= p < c ->
+  enum_key A' = enum_key A /\
+  exists s2, Clean C s2 /\
+    enumerate (build C n) A' amount cur s =
+    (s2, cur_set cur (enum_key A) (stop mod c), Some (map sort_abs (slice p stop (EOr C A)))).
+Proof. exact enumerate_same_set_final. Qed.
+Print Assumptions C06_enumerate_same_set_final.
+
+(* before F19 (finding K12) the key was the sorted LIST: [enumerate_v0] (Proofs/C06Final.v) is that
+   code; it is the same function on lists without a repeated feature; on a repeated literal it
+   hands out the same configuration twice where the repaired code continues the cycle
+   (ex_k12_evaluated below) *)
+Theorem C06_enumerate_v0_nodup : forall d A amount cur s,
+  NoDup (map Z.abs A) -> enumerate_v0 d A amount cur s = enumerate d A amount cur s.
+Proof. exact enumerate_v0_nodup. Qed.
+Print Assumptions C06_enumerate_v0_nodup.
 
 Theorem C06_enumerate_none_iff_final : forall C n, WFQ C n -> (0 < n)%nat ->
   forall A amount cur s,
@@ -369,9 +424,9 @@ Proof. exact enumerate_none_unsat_final. Qed.
 Print Assumptions C06_enumerate_none_keeps_cursor_final.
 
 Theorem C06_pages_cyclic_final : forall C n, WFQ C n -> (0 < n)%nat -> or_no_true_child C = true ->
-  forall A, in_range n A -> NoDup (map Z.abs A) ->
+  forall A, in_range n A ->
   forall reqs cur s, Clean C s -> Forall (req_ok A) reqs -> 0 < MCA C n A ->
-  let p := cur_get cur (sort_abs A) in
+  let p := cur_get cur (enum_key A) in
   0 <= p < MCA C n A ->
   exists rs cur' s',
     run_pages (build C n) reqs cur s = (rs, cur', s') /\
@@ -379,47 +434,47 @@ Theorem C06_pages_cyclic_final : forall C n, WFQ C n -> (0 < n)%nat -> or_no_tru
                                     (spec_total (MCA C n A) p (map snd reqs))) /\
     map (fun r => match r with Some l => Z.of_nat (length l) | None => -1 end) rs
       = spec_lens (MCA C n A) p (map snd reqs) /\
-    0 <= cur_get cur' (sort_abs A) < MCA C n A.
+    0 <= cur_get cur' (enum_key A) < MCA C n A.
 Proof. exact pages_cyclic_final. Qed.
 Print Assumptions C06_pages_cyclic_final.
 
 Theorem C06_pages_within_cycle_final : forall C n, WFQ C n -> (0 < n)%nat ->
   or_no_true_child C = true ->
-  forall A, in_range n A -> NoDup (map Z.abs A) ->
+  forall A, in_range n A ->
   forall reqs cur s, Clean C s -> Forall (req_ok A) reqs -> 0 < MCA C n A ->
-  cur_get cur (sort_abs A) = 0 -> zsum (map snd reqs) <= MCA C n A ->
+  cur_get cur (enum_key A) = 0 -> zsum (map snd reqs) <= MCA C n A ->
   exists rs cur' s',
     run_pages (build C n) reqs cur s = (rs, cur', s') /\
     pages_of rs = map sort_abs (firstn (Z.to_nat (zsum (map snd reqs))) (EOr C A)) /\
     NoDup (pages_of rs) /\
-    cur_get cur' (sort_abs A) = zsum (map snd reqs) mod MCA C n A.
+    cur_get cur' (enum_key A) = zsum (map snd reqs) mod MCA C n A.
 Proof. exact pages_within_cycle_final. Qed.
 Print Assumptions C06_pages_within_cycle_final.
 
 Theorem C06_pages_within_cycle_from_final : forall C n, WFQ C n -> (0 < n)%nat ->
   or_no_true_child C = true ->
-  forall A, in_range n A -> NoDup (map Z.abs A) ->
+  forall A, in_range n A ->
   forall reqs cur s, Clean C s -> Forall (req_ok A) reqs -> 0 < MCA C n A ->
-  let p := cur_get cur (sort_abs A) in
+  let p := cur_get cur (enum_key A) in
   0 <= p < MCA C n A -> p + zsum (map snd reqs) <= MCA C n A ->
   exists rs cur' s',
     run_pages (build C n) reqs cur s = (rs, cur', s') /\
     pages_of rs = map sort_abs (slice p (p + zsum (map snd reqs)) (EOr C A)) /\
     NoDup (pages_of rs) /\
-    cur_get cur' (sort_abs A) = (p + zsum (map snd reqs)) mod MCA C n A.
+    cur_get cur' (enum_key A) = (p + zsum (map snd reqs)) mod MCA C n A.
 Proof. exact pages_within_cycle_from_final. Qed.
 Print Assumptions C06_pages_within_cycle_from_final.
 
 Theorem C06_pages_cycle_final : forall C n, WFQ C n -> (0 < n)%nat -> or_no_true_child C = true ->
-  forall A, in_range n A -> NoDup (map Z.abs A) ->
+  forall A, in_range n A ->
   forall reqs cur s, Clean C s -> Forall (req_ok A) reqs -> 0 < MCA C n A ->
-  cur_get cur (sort_abs A) = 0 -> zsum (map snd reqs) = MCA C n A ->
+  cur_get cur (enum_key A) = 0 -> zsum (map snd reqs) = MCA C n A ->
   exists rs cur' s',
     run_pages (build C n) reqs cur s = (rs, cur', s') /\
     pages_of rs = map sort_abs (EOr C A) /\
     Permutation (pages_of rs) (ModelsA C n A) /\
     NoDup (pages_of rs) /\
-    cur_get cur' (sort_abs A) = 0.
+    cur_get cur' (enum_key A) = 0.
 Proof. exact pages_cycle_final. Qed.
 Print Assumptions C06_pages_cycle_final.
 
@@ -428,13 +483,16 @@ Print Assumptions C06_pages_cycle_final.
    in the circuit): two pages of one model each return ModelsA and the cursor to 0 *)
 Example ex_final_hyps :
   WFQ ex_iff 2 /\ WFQ ex_and 3 /\ WFQ ex_core 3 /\ or_no_true_child ex_core = true /\
-  in_range 3 [2] /\ NoDup (map Z.abs [2]) /\ MCA ex_core 3 [2] = 1 /\ MCA ex_core 3 [3; 1] = 1.
+  in_range 3 [2] /\ same_set [2] [2; 2] /\ MCA ex_core 3 [2] = 1 /\ MCA ex_core 3 [3; 1] = 1 /\
+  same_set [-3; 1] [1; -3; 1; -3] /\ in_range 3 [-3; 1] /\ MCA ex_and 3 [-3; 1] = 2.
 Proof.
   split; [apply check_wf_WFQ; vm_compute; reflexivity|].
   split; [apply check_wf_WFQ; vm_compute; reflexivity|].
   split; [apply check_wf_WFQ; vm_compute; reflexivity|].
   split; [reflexivity|]. split; [intros l [<-|[]]; cbn; lia|].
-  split; [repeat constructor; intros []|]. split; vm_compute; reflexivity.
+  split; [intros l; cbn [In]; tauto|]. split; [vm_compute; reflexivity|].
+  split; [vm_compute; reflexivity|]. split; [intros l; cbn [In]; tauto|].
+  split; [intros l [<-|[<-|[]]]; cbn; lia|]. vm_compute; reflexivity.
 Qed.
 
 Example ex_final_applies :
@@ -442,13 +500,48 @@ Example ex_final_applies :
     run_pages (build ex_core 3) [([2], 1)] [] (fresh_scratch ex_core) = (rs, cur', s') /\
     pages_of rs = map sort_abs (EOr ex_core [2]) /\
     Permutation (pages_of rs) (ModelsA ex_core 3 [2]) /\
-    NoDup (pages_of rs) /\ cur_get cur' (sort_abs [2]) = 0.
+    NoDup (pages_of rs) /\ cur_get cur' (enum_key [2]) = 0.
 Proof.
-  destruct ex_final_hyps as (_ & _ & HQ & Hor & HA & HND & Hc & _).
-  apply (C06_pages_cycle_final ex_core 3 HQ ltac:(lia) Hor [2] HA HND).
+  destruct ex_final_hyps as (_ & _ & HQ & Hor & HA & _ & Hc & _).
+  apply (C06_pages_cycle_final ex_core 3 HQ ltac:(lia) Hor [2] HA).
   - apply fresh_clean.
-  - constructor; [|constructor]. split; [reflexivity|cbn; lia].
+  - constructor; [|constructor]. split; [apply same_set_refl|cbn; lia].
   - rewrite Hc. lia.
   - reflexivity.
   - rewrite Hc. reflexivity.
 Qed.
+
+(* F19 applied: `enum a -3 1 l 1` then `enum a 1 -3 1 -3 l 1` on ex_and (two models contain -3 and 1):
+   by C06_pages_cycle_final the two requests -- different spellings of one set -- return the two
+   models, each once, and the cursor of the set is back at 0.  Evaluated: one cursor entry, keyed
+   by the set; the code before F19 (finding K12) returns the same configuration twice and leaves
+   two entries. *)
+Example ex_k12_one_cycle :
+  exists rs cur' s',
+    run_pages (build ex_and 3) [([-3; 1], 1); ([1; -3; 1; -3], 1)] [] (fresh_scratch ex_and) = (rs, cur', s') /\
+    pages_of rs = map sort_abs (EOr ex_and [-3; 1]) /\
+    Permutation (pages_of rs) (ModelsA ex_and 3 [-3; 1]) /\
+    NoDup (pages_of rs) /\ cur_get cur' (enum_key [-3; 1]) = 0.
+Proof.
+  destruct ex_final_hyps as (_ & HQ & _ & _ & _ & _ & _ & _ & HS & HA & Hc).
+  apply (C06_pages_cycle_final ex_and 3 HQ ltac:(lia) ltac:(reflexivity) [-3; 1] HA).
+  - apply fresh_clean.
+  - constructor; [split; [apply same_set_refl|cbn; lia]|].
+    constructor; [split; [exact HS|cbn; lia]|constructor].
+  - rewrite Hc. lia.
+  - reflexivity.
+  - rewrite Hc. reflexivity.
+Qed.
+
+Example ex_k12_evaluated :
+  let d := build ex_and 3 in let s0 := fresh_scratch ex_and in
+  (* repaired: second page = the next configuration, one cursor entry keyed by the set *)
+  (let '(s1, c1, r1) := enumerate d [-3; 1] 1 [] s0 in
+   let '(_, c2, r2) := enumerate d [1; -3; 1; -3] 1 c1 s1 in (r1, r2, c1, c2))
+  = (Some [[1; 2; -3]], Some [[1; -2; -3]], [([1; -3], 1)], [([1; -3], 0)]) /\
+  (* before F19: the same configuration again, two cursor entries *)
+  (let '(s1, c1, r1) := enumerate_v0 d [-3; 1] 1 [] s0 in
+   let '(_, c2, r2) := enumerate_v0 d [1; -3; 1; -3] 1 c1 s1 in (r1, r2, c2))
+  = (Some [[1; 2; -3]], Some [[1; 2; -3]], [([1; -3], 1); ([1; 1; -3; -3], 1)]) /\
+  enum_key [1; -3; 1; -3] = [1; -3] /\ sort_abs [1; -3; 1; -3] = [1; 1; -3; -3].
+Proof. vm_compute. repeat split; reflexivity. Qed.
